@@ -45,6 +45,7 @@ def model_with(schema, home, text, seed):
     env, texts = environment()
     item = {'env': env, 'texts': dict(texts), 'script_texts': []}
     d = calls.diagram(schema, item)
+    d['irdt'] = True
     if home == 'func':
         d['funcs'].append({'n': 'target', 'ret': 'integer', 'body': text, 'params': PARAMS})
     elif home == 'bridge':
@@ -73,7 +74,8 @@ def one_item(plan, item):
     schema = plan['schema']
     text, tokpos = render(item['toks'], item.get('seed', 0), item.get('case', 'lower'), item.get('layout', 'mixed'), item.get('keep'))
     ev = {'src': item['body'], 'toks': item['toks'], 'err': '', 'errkind': '', 'real': [], 'tokpos': tokpos, 'nodes': [], 'text': text,
-          'home': item['home'], 'gen': '', 'idem': 'skip', 'consistent': 'skip', 'facts': {'_': []}}
+          'home': item['home'], 'gen': '', 'idem': 'skip', 'consistent': 'skip',
+          'facts': {'stmts': [], 'vals': [], 'vars': [], 'ppairs': [], 'subtype_counts': []}}
     try:
         with limit(60.0):
             m, inst = model_with(schema, item['home'], text, item.get('seed', 0))
